@@ -1,0 +1,7 @@
+//go:build !verif
+
+package dataflow
+
+func verifOnSummaryConstructed(_ *AnalyzerState, _ *SummaryGraph) {}
+
+func verifGate(_ string) {}
